@@ -237,7 +237,8 @@ def main(tier):
     def on_result(task, out):
         ex.absorb(task[1], out)
 
-    n, errors = ex.pool.run(pscheck._exec_task, ((execute, s) for s in gen_iter), deadline, on_result)
+    import itertools
+    n, errors = ex.pool.run(pscheck._exec_task, ((execute, s) for s in itertools.chain(pscheck.corpus(PROP), gen_iter)), deadline, on_result)
     for (t, e) in errors:
         ex.report.engine_errors.append(e)
     exhaustive = False
